@@ -224,14 +224,14 @@ pub fn recheck_pick(seed: u64, idx: u64, every: u64) -> bool {
 }
 
 /// Progress counter of this process (bumped at every run / replayed case) and a watchdog thread:
-/// a run that makes no progress for VERIF_HANG_SECS (default 300) wall-clock seconds is an
+/// a run that makes no progress for VERIF_HANG_SECS (default 120) wall-clock seconds is an
 /// operation of the crate that does not return. The watchdog says so on stderr and ends the
 /// process with exit code 97, which the orchestrator classifies as `hang_no_progress`.
 /// (Wall-clock time is used for this one purpose only; nothing the simulation decides reads it.)
 static PROGRESS: std::sync::atomic::AtomicU64 = std::sync::atomic::AtomicU64::new(0);
 
 pub fn hang_secs() -> u64 {
-    std::env::var("VERIF_HANG_SECS").ok().and_then(|s| s.parse().ok()).unwrap_or(300).max(5)
+    std::env::var("VERIF_HANG_SECS").ok().and_then(|s| s.parse().ok()).unwrap_or(120).max(5)
 }
 
 pub fn start_watchdog() {
@@ -630,9 +630,10 @@ pub fn check_main(engine: &dyn Engine, tier: Tier) -> i32 {
     pending.reverse();
     let mut relaunches = 0;
     while !pending.is_empty() {
-        if abort_cases.len() >= 3 {
-            // three abnormal deaths located and classified: that is the report; the rest of the
-            // exploration would mostly die the same way
+        if abort_cases.len() >= 3 || abort_cases.iter().any(|c| c.fail.as_ref().map_or(false, |f| f.class == "hang_no_progress")) {
+            // three abnormal deaths located and classified (or one hang, each of which costs the
+            // watchdog delay three times over): that is the report; the rest of the exploration
+            // would mostly die the same way
             let skipped: u64 = pending.iter().map(|b| b.1).sum();
             total.bump("counters", "runs_skipped_after_repeated_aborts", skipped);
             break;
@@ -642,7 +643,7 @@ pub fn check_main(engine: &dyn Engine, tier: Tier) -> i32 {
         let children: Vec<Child> = wave.iter().map(|(s, c)| spawn_worker(prop, tier, seed, *s, *c, &dir, "A", &["--recheck-every".into(), recheck_every.to_string()])).collect();
         for mut c in children {
             let (start, count) = (c.start, c.count);
-            if abort_cases.len() >= 3 {
+            if abort_cases.len() >= 3 || abort_cases.iter().any(|c| c.fail.as_ref().map_or(false, |f| f.class == "hang_no_progress")) {
                 let _ = c.child.kill();
                 let _ = c.child.wait();
                 total.bump("counters", "runs_skipped_after_repeated_aborts", count);
